@@ -168,7 +168,7 @@ class ID3(ID3Tags, mutagen.Metadata):
 
             size = self.size - 10
             if self.f_extended:
-                size -= 4 + len(self._header._extdata)
+                size -= self._header._extsize
             if size < 0:
                 raise error("extended header larger than the tag")
             data = read_full(fileobj, size)
